@@ -1684,6 +1684,13 @@ func (db *DB) CommitWAL(ctx context.Context) (err error) {
 			continue
 		}
 
+		// Skip pages beyond the commit size. A transaction can spill a page to
+		// the WAL and then free it again before it commits with a smaller size.
+		if pgno > commit {
+			TraceLog.Printf("[CommitWALPage(%s)]: pgno=%d SKIP(TRUNCATED)\n", db.name, pgno)
+			continue
+		}
+
 		// Read next frame from the WAL file.
 		offset := txFrameOffsets[pgno]
 		if _, err := internal.ReadFullAt(walFile, frame, offset); err != nil {
